@@ -199,6 +199,7 @@ structure InnerFacts (keys : List Bytes) (keep : List Bool) (t : Trie1) (queue :
   pre : ∀ t, o.s ≤ t → t < o.e →
       ws ≤ (knOf keys t).length ∧ (knOf keys t).take ws = (knOf keys o.s).take ws
   pref : r.pref = prefOf t.opt (knOf keys o.s) o.fb ws
+  big : r.big = true → ws % 2 = 0 ∧ o.fb % 2 = 0
   labels : ∀ t, o.s ≤ t → t < o.e → keptAt keep t = true → labelOf keys ws r.big t ∈ r.labels
   ne : 0 < r.labels.length
   pw : r.labels.Pairwise (· < ·)
@@ -212,10 +213,10 @@ theorem inner_facts {keys : List Bytes} {keep : List Bool} {t : Trie1} {queue : 
     (h : QOK keys keep t queue) {j : Nat} {o : Subset} {r : InnerRec}
     (hsub : SubOK keys keep o) (hin : InnerOK keys keep t.opt queue j o r) :
     ∃ ws, InnerFacts keys keep t queue j o r ws := by
-  obtain ⟨ws, hfbws, hall, _, hpref, hlabels, hpw, hmono, hjfc, hkids⟩ := hin
+  obtain ⟨ws, hfbws, hall, hbig, hpref, hlabels, hpw, hmono, hjfc, hkids⟩ := hin
   have hmem : ∀ t, o.s ≤ t → t < o.e → keptAt keep t = true → labelOf keys ws r.big t ∈ r.labels :=
     fun t h1 h2 h3 => (hlabels _).mpr ⟨t, h1, h2, h3, rfl⟩
-  refine ⟨ws, hfbws, hall, hpref, hmem, ?_, hpw, hmono, hjfc, ?_⟩
+  refine ⟨ws, hfbws, hall, hpref, hbig, hmem, ?_, hpw, hmono, hjfc, ?_⟩
   · obtain ⟨t, h1, h2, h3⟩ := hsub.kept
     exact List.length_pos_of_mem (hmem t h1 h2 h3)
   · intro k hk
